@@ -1,5 +1,5 @@
 import ZmqVerif.Lemmas.FQCons
-import ZmqVerif.Lemmas.WorldRecv
+import ZmqVerif.Lemmas.WorldHist
 /-!
 # C05 — receive delivers each peer's messages exactly once, whole and in order
 
@@ -76,15 +76,17 @@ theorem C05_world_recv (fuel : Nat) (w : World) (sid : Nat) (s : Socket) (hs : g
 
 open Zmq.W in
 /-- The framed reader underneath: an item is handed out iff it is the FIRST item of the rest of
-the connection's byte stream; `Pending`, end-of-stream and errors only when no complete item is
-left (a message cut short by a disconnect is never surfaced); no other pipe is touched. -/
+the connection's byte stream (`Rd.rem` = C02's `run` on read buffer ++ bytes waiting in the pipe;
+the whole remaining run — items, decoder state, leftover, first error — is the old one minus
+that item); `Pending`, end-of-stream and errors only when no complete item is left (a message cut
+short by a disconnect is never surfaced); no other pipe is touched. -/
 theorem C05_world_reader (fuel : Nat) (ps : Pipes) (rd : Rd) (who : RWaker)
     (hf : (inbufOf ps rd.pipe).length < fuel) (r : ReadRes) (ps' : Pipes) (rd' : Rd)
     (h : readerPoll fuel ps rd who = (r, ps', rd')) :
     rd'.pipe = rd.pipe ∧ (∀ j, j ≠ rd.pipe → inbufOf ps' j = inbufOf ps j) ∧
     (match (generalizing := false) r with
-     | .item i => rd.items ps = i :: rd'.items ps'
-     | .pending => rd.items ps = [] ∧ rd'.items ps' = []
+     | .item i => rd.rem ps = (rd'.rem ps').pre [i]
+     | .pending => rd.rem ps = rd'.rem ps' ∧ rd.items ps = []
      | _ => rd.items ps = []) :=
   readerPoll_spec fuel ps rd who hf r ps' rd' h
 
@@ -96,6 +98,45 @@ theorem C05_world_fq (fuel : Nat) (ps : Pipes) (sid : Nat) (s : Socket) (hpd : P
     (r : FqRes) (ps' : Pipes) (s' : Socket) (h : fqPoll fuel ps sid s = (r, ps', s')) :
     s'.typ = s.typ ∧ PD s'.fqStreams ∧ FqPost ps s.fqStreams r ps' s'.fqStreams :=
   fqPoll_spec fuel ps sid s hpd r ps' s' h
+
+open Zmq.W in
+/-- **Exactly once, whole, in order — for every history** of `recv` polls (each satisfies `Step` and
+`RecvPost`, by `C05_world_recv`; `RecvRun.step` turns it into a constructor of the history) and of
+bytes arriving, in any segmentation, on any connection, valid or not.  For a connection `k`
+registered at the start and still registered: the complete messages in `k`'s WHOLE byte stream so
+far (`total` = C02's `run` from the reader's initial state over the bytes that were waiting and
+everything that has arrived since) are EXACTLY the messages `recv` has consumed from `k` — `log`
+records them with what the application got: the message as the socket type presents it, or (REP)
+one error — in the same order, followed by the complete messages still in front of its reader. -/
+theorem C05_world_exactly_once {t : SockType} {ps0 : Pipes} {m0 : Streams} {ps : Pipes} {m : Streams}
+    {taken : Ident → List Item} {rev : Nat → Bytes} {log : List (Ident × Msg × POut)}
+    (h : RecvRun t ps0 m0 ps m taken rev log) (k : Ident) (rd0 rd : Rd)
+    (h0 : ilookup m0 k = some rd0) (hk : ilookup m k = some rd) :
+    msgsOf (total ps0 rd0 rev).items =
+      (log.filter (fun e => e.1 == k)).map (·.2.1) ++ msgsOf (rd.items ps) :=
+  h.exactly_once k rd0 rd h0 hk
+
+open Zmq.W in
+/-- … and for a connection that is gone (ended, failed, dropped for a protocol error): what was
+consumed from it is a PREFIX of the complete messages of its byte stream — a message cut short by
+the disconnect was never surfaced, none was invented. -/
+theorem C05_world_gone_prefix {t : SockType} {ps0 : Pipes} {m0 : Streams} {ps : Pipes} {m : Streams}
+    {taken : Ident → List Item} {rev : Nat → Bytes} {log : List (Ident × Msg × POut)}
+    (h : RecvRun t ps0 m0 ps m taken rev log) (k : Ident) (rd0 : Rd)
+    (h0 : ilookup m0 k = some rd0) (hk : ilookup m k = none) :
+    (log.filter (fun e => e.1 == k)).map (·.2.1) <+: msgsOf (total ps0 rd0 rev).items :=
+  h.gone_prefix k rd0 h0 hk
+
+open Zmq.W in
+/-- every poll of the model's `recv` extends a history (so the two theorems above speak about every
+execution of `Model.World` restricted to `recv` polls and arriving bytes) -/
+theorem C05_world_poll_extends {t : SockType} {ps0 : Pipes} {m0 : Streams} {ps : Pipes} {m : Streams}
+    {taken : Ident → List Item} {rev : Nat → Bytes} {log : List (Ident × Msg × POut)}
+    (h : RecvRun t ps0 m0 ps m taken rev log) {ps' : Pipes} {m' : Streams} {c : Ident → List Item} {o : POut}
+    (hs : Step ps m ps' m' c) (hp : RecvPost t c o) :
+    ∃ log', RecvRun t ps0 m0 ps' m' (fun k => taken k ++ c k) rev log' ∧
+      (log' = log ∨ ∃ k w, log' = log ++ [(k, w, o)]) :=
+  h.step hs hp
 
 open Zmq.W in
 /-- non-vacuity: the hypotheses are met by a PULL socket with two connections on distinct pipes,
